@@ -80,7 +80,8 @@ Decomp(p, g) ==
 
 MonInit(p) ==
   [p |-> p,
-   pend |-> <<>>,     \* presses not yet accounted for, in arrival order: [c, rel, ly, sk, age]
+   pend |-> <<>>,     \* presses not yet accounted for, in arrival order: [c, xr, ly, sk, age, hid]
+                      \*   xr = keys released (input) since this press arrived; hid = chord that may have consumed it unseen
    acts |-> <<>>,     \* chord actions currently held: [ci, rem, all, chk, due, tag]
    gst |-> "none",    \* sharp group: "none" | "open"
    g |-> <<>>,        \* its presses in arrival order
@@ -92,14 +93,16 @@ MonInit(p) ==
    expDef |-> FALSE,  \* the expectation is the whole set's own action
    last |-> [ci |-> 0, viaRel |-> FALSE, late |-> FALSE],   \* (= NoLast) the latest chord activation (to classify a repeat)
    sp |-> IF p.ver = 1 THEN 0 ELSE MaxT(p) + p.minidle + 2,     \* v2, while a chord action is held: ticks since the last press input (capped; else at the cap)
+   phys |-> {},       \* keys physically down (from the inputs)
    lay |-> 0, lheld |-> FALSE,
-   gapIn |-> 0, lastIdle |-> TRUE, lastCb |-> TRUE, quiet |-> p.red + 1, err |-> ""]
+   gapIn |-> 0, lastIdle |-> TRUE, cbRun |-> 2, quiet |-> p.red + 1, err |-> ""]
 NoLast == [ci |-> 0, viaRel |-> FALSE, late |-> FALSE]
 
 SpCap(p) == IF p.ver = 1 THEN 0 ELSE MaxT(p) + p.minidle + 2
 Settled(m) ==
   /\ m.lastIdle /\ m.quiet > m.p.red /\ m.pend = <<>> /\ m.gapIn = 0 /\ m.exp = <<>> /\ m.gst = "none"
-  /\ (m.p.ver = 2 => m.lastCb /\ m.acts = <<>>)
+  \* v2: chords were accepted (no cool-down) for two ticks, so no stale skip counter of chord.rs is left either
+  /\ (m.p.ver = 2 => m.cbRun >= 2 /\ m.acts = <<>>)
 
 MonIn(m, r) ==
   IF m.err # "" THEN m
@@ -107,7 +110,7 @@ MonIn(m, r) ==
   ELSE
     LET p == m.p
         c == r.c
-        m0 == [m EXCEPT !.gapIn = 1]
+        m0 == [m EXCEPT !.gapIn = 1, !.phys = IF r.e = "d" THEN @ \cup {r.c} ELSE @ \ {r.c}]
         G == SeqToSet(m.g)
     IN
     IF p.lkey # 0 /\ c = p.lkey
@@ -116,7 +119,7 @@ MonIn(m, r) ==
                     !.pend = [i \in DOMAIN @ |-> [@[i] EXCEPT !.ly = 0 - 1]],
                     !.gst = "none", !.g = <<>>]
     ELSE IF r.e = "d"
-    THEN LET m1 == [m0 EXCEPT !.pend = Append(@, [c |-> c, rel |-> FALSE, ly |-> m.lay, sk |-> FALSE, age |-> 0]),
+    THEN LET m1 == [m0 EXCEPT !.pend = Append(@, [c |-> c, xr |-> {}, ly |-> m.lay, sk |-> FALSE, age |-> 0, hid |-> 0]),
                               !.sp = IF m.acts # <<>> THEN 0 ELSE @]
          IN IF m.gst = "none"
             THEN IF Settled(m) /\ IsPart(p, c) /\ m.lay >= 0 /\ (p.ver = 1 \/ CanExtend(p, {c}, m.lay))
@@ -130,14 +133,13 @@ MonIn(m, r) ==
                  THEN [m1 EXCEPT !.gst = "none", !.g = <<>>]      \* arrival exactly at the window's end: soft
                  ELSE [m1 EXCEPT !.g = Append(@, c), !.arr = TRUE]
             ELSE [m1 EXCEPT !.term = "other"]
-    ELSE \* release: attributed to the oldest press of the key that is not yet released
-         LET i == FirstIdx(m.pend, LAMBDA e : e.c = c /\ ~e.rel)
-             j == FirstIdx(m.acts, LAMBDA a : c \in a.rem)
-             m1 == IF i # 0 THEN [m0 EXCEPT !.pend[i].rel = TRUE]
-                   ELSE IF j # 0
-                   THEN [m0 EXCEPT !.acts[j].rem = @ \ {c},
-                                   !.acts[j].tag = @ \/ (p.ver = 2 /\ m.sp < SpCap(p))]
-                   ELSE m0
+    ELSE \* release: "key c was released" for every press still pending and for every held chord action c takes part in
+         \* (also when c was pressed again since: chord.rs applies a queued release to every active chord of the key)
+         LET m1 == [m0 EXCEPT !.pend = [i \in DOMAIN @ |-> [@[i] EXCEPT !.xr = @ \cup {c}]],
+                              !.acts = [j \in DOMAIN @ |->
+                                          IF c \in @[j].rem
+                                          THEN [@[j] EXCEPT !.rem = @ \ {c}, !.tag = @ \/ (p.ver = 2 /\ m.sp < SpCap(p))]
+                                          ELSE @[j]]]
          IN IF m.gst = "open" /\ m.term = "none" /\ (c \in G \/ (p.ver = 1 /\ IsPart(p, c)))
             THEN [m1 EXCEPT !.term = "rel"] ELSE m1
 
@@ -154,12 +156,14 @@ ActivateChord(m, ci) ==
       I == {idx(k) : k \in S}
       lys == {m.pend[i].ly : i \in I}
       ages == {m.pend[i].age : i \in I}
-      viaRel == \E i \in I : m.pend[i].rel
+      oldest == CHOOSE i \in I : \A j \in I : i <= j
+      xr0 == m.pend[oldest].xr \cap S          \* participants released since the set's first press arrived
+      viaRel == xr0 # {}
       late == \E a \in ages : a >= ch.T
       fromExp == m.exp # <<>>
       keep == SelectSeq([i \in DOMAIN m.pend |-> [e |-> m.pend[i], i |-> i]], LAMBDA x : x.i \notin I)
       pend1 == [i \in DOMAIN keep |-> keep[i].e]
-      rem == {k \in S : ~m.pend[idx(k)].rel}
+      rem == S \ xr0
   IN IF missing
      THEN IF m.last.ci = ci /\ m.last.viaRel
           THEN Fail(m, "C09 H1: chord action performed twice for one set of presses [a participant was released before the chord fired]")
@@ -238,10 +242,23 @@ MonTick(m, out, idle, cb) ==
         m2 == IF p.ver = 1 THEN m1
               ELSE [m1 EXCEPT !.pend = [i \in DOMAIN @ |-> [@[i] EXCEPT !.age = OMin(@ + 1, MaxT(p) + 1)]]]
         \* ---- 2. the outputs
-        m3 == Scan(m2, out)
+        m3a == Scan(m2, out)
+        \* ---- 2b. v2: while a chord's output key is down, a further activation of the same chord is invisible at the OS
+        \* level; presses that may have been consumed that way are marked and no longer claimed
+        hidFor(mm, a) == LET S == a.all IN
+                         IF \A k \in S : \E i \in DOMAIN mm.pend : mm.pend[i].c = k /\ mm.pend[i].hid \in {0, a.ci}
+                         THEN {FirstIdx(mm.pend, LAMBDA e : e.c = k /\ e.hid \in {0, a.ci}) : k \in S} ELSE {}
+        hidIdx == IF p.ver = 1 THEN [i \in {} |-> 0]
+                  ELSE [i \in UNION {hidFor(m3a, m3a.acts[j]) : j \in DOMAIN m3a.acts} |->
+                          LET J == {j \in DOMAIN m3a.acts : i \in hidFor(m3a, m3a.acts[j])} IN m3a.acts[CHOOSE j \in J : TRUE].ci]
+        m3 == IF m3a.err # "" THEN m3a
+              ELSE [m3a EXCEPT !.pend = [i \in DOMAIN @ |-> IF i \in DOMAIN hidIdx THEN [@[i] EXCEPT !.hid = hidIdx[i]] ELSE @[i]]]
         \* ---- 3. deadlines
         settledNow == idle /\ m.lastIdle /\ m.gapIn = 0
-        relCond(a) == IF p.chords[a.ci].first THEN a.rem # a.all ELSE a.rem = {}
+        \* (a press of an undefined single-key chord is consumed silently, so `rem` may be attributed to an older press
+        \*  of the key: the deadline also waits until no participant is physically down)
+        relCond(a) == /\ IF p.chords[a.ci].first THEN a.rem # a.all ELSE a.rem = {} /\ a.all \cap m.phys = {}
+                      /\ ~\E i \in DOMAIN m3.pend : m3.pend[i].hid = a.ci
         acts1 == [i \in DOMAIN m3.acts |-> [m3.acts[i] EXCEPT !.due = IF relCond(m3.acts[i]) THEN OMin(@ + 1, p.slack + 1) ELSE 0]]
         stuck == {i \in DOMAIN acts1 : acts1[i].due > p.slack}
         m4 == IF m3.err # "" THEN m3
@@ -251,7 +268,7 @@ MonTick(m, out, idle, cb) ==
               THEN IF \E i \in stuck : acts1[i].tag
                    THEN Fail(m3, "C09 H3: chord action still held after all its participants were released [released shortly after another key press: chords-v2-min-idle]")
                    ELSE Fail(m3, "C09 H3: chord action still held after its release condition")
-              ELSE IF settledNow /\ \E i \in DOMAIN m3.pend : IndOut(p, m3.pend[i].c) # 0
+              ELSE IF settledNow /\ \E i \in DOMAIN m3.pend : IndOut(p, m3.pend[i].c) # 0 /\ m3.pend[i].hid = 0
               THEN Fail(m3, "C09 H4: a pressed key was swallowed (neither a chord nor its own action accounts for it)")
               ELSE [m3 EXCEPT !.acts = acts1,
                               !.expLeft = IF @ > 0 THEN @ - 1 ELSE @,
@@ -261,7 +278,7 @@ MonTick(m, out, idle, cb) ==
                        !.sp = IF m4.acts = <<>> THEN SpCap(p) ELSE OMin(@ + 1, SpCap(p)),
                        !.last = IF settledNow THEN NoLast ELSE @,
                        !.expDef = IF m4.exp = <<>> THEN FALSE ELSE @,
-                       !.gapIn = 0, !.lastIdle = idle, !.lastCb = (p.ver = 1 \/ cb),
+                       !.gapIn = 0, !.lastIdle = idle, !.cbRun = IF p.ver = 1 \/ cb THEN OMin(@ + 1, 2) ELSE 0,
                        !.quiet = IF out = <<>> THEN OMin(m4.quiet + 1, p.red + 1) ELSE 0]
 
 RECURSIVE MonSilent(_, _, _, _)
